@@ -133,12 +133,8 @@ std::string norm(const char* p)
         std::size_t j = s.find('/', i);
         if(j == std::string::npos) j = s.size();
         std::string c = s.substr(i, j - i);
-        if(c == "..")
-        {
-            if(!parts.empty()) parts.pop_back();
-        }
-        else if(!c.empty() && c != ".")
-            parts.push_back(c);
+        // ".." stays: what it means depends on the symbolic links before it (resolve())
+        if(!c.empty() && c != ".") parts.push_back(c);
         i = j + 1;
     }
     std::string out;
@@ -157,35 +153,53 @@ std::string parent_of(const std::string& abs)
     return k == 0 ? "/" : abs.substr(0, k);
 }
 
-// Follow symbolic links of the simulated tree: every proper prefix of the path, and the last
-// component too if follow_last. Returns "" on a loop (ELOOP).
+// Path resolution the way the kernel does it, component by component: a symbolic link is replaced by
+// its target (every component but the last always, the last one if follow_last), ".." goes to the
+// parent of whatever the components before it resolved to. Returns "" on a loop (ELOOP).
 std::string resolve(std::string abs, bool follow_last = true)
 {
-    for(int hops = 0; hops < 40; hops++)
-    {
-        bool again = false;
-        std::size_t i = 1;
-        while(i <= abs.size())
+    std::vector<std::string> todo, done;
+    auto split = [](const std::string& s, std::vector<std::string>& out) {
+        std::vector<std::string> tmp;
+        std::size_t i = 0;
+        while(i < s.size())
         {
-            std::size_t j = abs.find('/', i);
-            const bool last = j == std::string::npos;
-            if(last) j = abs.size();
-            const std::string prefix = abs.substr(0, j);
-            auto it = g.fs.find(prefix);
-            if(it != g.fs.end() && !it->second.link.empty() && (!last || follow_last))
-            {
-                const std::string& t = it->second.link;
-                const std::string rest = abs.substr(j);
-                abs = norm((t[0] == '/' ? t : parent_of(prefix) + "/" + t).c_str()) + rest;
-                again = true;
-                break;
-            }
-            if(last) break;
+            std::size_t j = s.find('/', i);
+            if(j == std::string::npos) j = s.size();
+            if(j > i && s.compare(i, j - i, ".") != 0) tmp.push_back(s.substr(i, j - i));
             i = j + 1;
         }
-        if(!again) return abs;
+        out.insert(out.begin(), tmp.begin(), tmp.end());
+    };
+    split(abs, todo);
+    int hops = 0;
+    while(!todo.empty())
+    {
+        std::string c = todo.front();
+        todo.erase(todo.begin());
+        if(c == "..")
+        {
+            if(!done.empty()) done.pop_back();
+            continue;
+        }
+        std::string cand;
+        for(auto& d : done) cand += "/" + d;
+        cand += "/" + c;
+        auto it = g.fs.find(cand);
+        const bool last = todo.empty();
+        if(it != g.fs.end() && !it->second.link.empty() && (!last || follow_last))
+        {
+            if(++hops > 40) return "";
+            const std::string& t = it->second.link;
+            if(t[0] == '/') done.clear();
+            split(t, todo);
+            continue;
+        }
+        done.push_back(c);
     }
-    return "";
+    std::string out;
+    for(auto& d : done) out += "/" + d;
+    return out.empty() ? "/" : out;
 }
 
 // errno if the parent chain is unusable, else 0
@@ -1611,6 +1625,12 @@ void fs_reset()
     d.dir = true;
     g.fs["/sim"] = d;
     g.fs["/sim/in"] = d;
+    // a symbolic link to a directory two levels down: "ln/.." is /sim/far, not /sim
+    g.fs["/sim/far"] = d;
+    g.fs["/sim/far/deep"] = d;
+    Node ln;
+    ln.link = "far/deep";
+    g.fs["/sim/ln"] = ln;
 }
 
 std::string out_dir_arg(long variant)
@@ -1621,6 +1641,7 @@ std::string out_dir_arg(long variant)
     case 1: return "/sim/out";
     case 2: return "out/a/b";
     case 3: return "./out/../out2/";
+    case 5: return "ln/../out5";
     default: return "";
     }
 }
@@ -1633,6 +1654,7 @@ std::string out_root_abs(long variant)
     case 1: return "/sim/out";
     case 2: return "/sim/out/a/b";
     case 3: return "/sim/out2";
+    case 5: return "/sim/far/out5";
     default: return "/sim";
     }
 }
@@ -1739,7 +1761,7 @@ const Ref& reference(const std::string& schema, long outv, long argv_v = 0)
         RunOutcome ro = run_sbeppc(argv_variant(argv_v, schema, outv), {}, -1, -1);
         std::map<std::string, std::string> files;
         for(auto& kv : g.fs)
-            if(!kv.second.dir && kv.first.rfind("/sim/in/", 0) != 0) files[kv.first] = kv.second.data;
+            if(!kv.second.dir && kv.second.link.empty() && kv.first.rfind("/sim/in/", 0) != 0) files[kv.first] = kv.second.data;
         if(ro.rc != 0 || ro.kind != "EXIT")
         {
             r.ok = false;
@@ -1752,7 +1774,7 @@ const Ref& reference(const std::string& schema, long outv, long argv_v = 0)
             r.trace = ro.trace;
             r.ok = true;
             for(auto& kv : g.fs)
-                if(kv.second.dir && kv.first != "/sim" && kv.first != "/sim/in") r.dirs.insert(kv.first);
+                if(kv.second.dir && kv.first != "/sim" && kv.first != "/sim/in" && kv.first != "/sim/far" && kv.first != "/sim/far/deep") r.dirs.insert(kv.first);
         }
         else if(files != first)
         {
@@ -2516,7 +2538,7 @@ Result exec_plan(const Plan& plan)
                 // replace one directory of the tree (with everything below it) by a regular file
                 std::vector<std::string> dirs;
                 for(auto& kv : g.fs)
-                    if(kv.second.dir && kv.first.rfind(out_root_abs(outv), 0) == 0 && kv.first != "/sim" && kv.first != "/sim/in") dirs.push_back(kv.first);
+                    if(kv.second.dir && kv.first.rfind(out_root_abs(outv), 0) == 0 && kv.first != "/sim" && kv.first != "/sim/in" && kv.first != "/sim/far" && kv.first != "/sim/far/deep") dirs.push_back(kv.first);
                 if(!dirs.empty())
                 {
                     const std::string victim = dirs[(size_t)r.below(dirs.size())];
@@ -2538,7 +2560,7 @@ Result exec_plan(const Plan& plan)
                 for(auto& kv : g.fs)
                 {
                     if(!kv.second.dir || kv.first.rfind(out_root_abs(outv) + "/", 0) != 0) continue;
-                    if(kv.first == "/sim/in" || kv.first.rfind("/sim/in/", 0) == 0 || kv.first.rfind("/sim/store", 0) == 0) continue;
+                    if(kv.first == "/sim/in" || kv.first.rfind("/sim/in/", 0) == 0 || kv.first.rfind("/sim/store", 0) == 0 || kv.first == "/sim/far" || kv.first == "/sim/far/deep") continue;
                     bool has_subdir = false, has_file = false;
                     for(auto& kv2 : g.fs)
                         if(kv2.first.rfind(kv.first + "/", 0) == 0) (kv2.second.dir ? has_subdir : has_file) = true;
@@ -2613,7 +2635,7 @@ Result exec_plan(const Plan& plan)
             // snapshot of pre-existing files under the output root (for the residue oracle)
             std::map<std::string, std::string> before;
             for(auto& kv : g.fs)
-                if(!kv.second.dir) before[kv.first] = kv.second.data;
+                if(!kv.second.dir && kv.second.link.empty()) before[kv.first] = kv.second.data;
             g_huge_length = false;
             for(auto& kv : g.fs)
             {
@@ -2688,7 +2710,7 @@ Result exec_plan(const Plan& plan)
                     std::string where = "its diagnostics";
                     for(auto& kv : g.fs)
                     {
-                        if(kv.second.dir) continue;
+                        if(kv.second.dir || !kv.second.link.empty()) continue;
                         const bool input = kv.first.rfind("/sim/in/", 0) == 0;
                         if(kv.second.data.find(pat) == std::string::npos) continue;
                         auto b = before.find(kv.first);
@@ -2781,7 +2803,7 @@ Result exec_plan(const Plan& plan)
                 {
                     for(auto& kv : g.fs)
                     {
-                        if(kv.second.dir) continue;
+                        if(kv.second.dir || !kv.second.link.empty()) continue;
                         auto b = before.find(kv.first);
                         if(b == before.end())
                         {
@@ -2954,11 +2976,11 @@ Plan gen_c20(u64 seed, const std::string& tier)
     // swarm: which fault kinds are enabled in this plan
     const bool en_single = fl.chance(2, 3), en_yank = fl.chance(1, 4), en_full = fl.chance(1, 4), en_heap = fl.chance(1, 2), en_prefill = fl.chance(1, 3), en_cond = fl.chance(1, 6);
     const bool en_clock = root.fork("clock").chance(1, 2);
-    long outv = (long)wl.below(5);
+    long outv = (long)wl.below(6);
     for(int i = 0; i < nruns; i++)
     {
         const std::string s = schemas[wl.below(schemas.size())];
-        if(wl.chance(1, 5)) outv = (long)wl.below(5);
+        if(wl.chance(1, 5)) outv = (long)wl.below(6);
         if(i == 0 && en_prefill)
         {
             Op pf;
